@@ -1,4 +1,5 @@
 P = dict(
+    features={"quick": [None, "fixed_point"], "thorough": [None, "fixed_point"]},
     bin="egv_c02", trace="Trace_C02", level="model_checking",
     mc=[dict(module="MC_C02", quick_cfg="MC_C02.cfg", workers=8, coverage=False),
         dict(module="MC_C02", quick_cfg="MC_C02_control.cfg", expect_violation=True, coverage=False, workers=8)],
